@@ -217,7 +217,12 @@ namespace Pistache::Rest
                 collection      = &optional_;
                 break;
             case SegmentType::Splat:
-                return splat_->removeRoute(lower_path);
+                if (splat_ == nullptr)
+                    throw std::runtime_error("Requested does not exist.");
+                // drop the wildcard child if it became empty; this node may still be needed
+                if (splat_->removeRoute(lower_path))
+                    splat_.reset();
+                return fixed_.empty() && param_.empty() && optional_.empty() && splat_ == nullptr && route_ == nullptr;
             }
 
             try
